@@ -242,11 +242,20 @@ def untrusted_attr(check: Check, repo: Repo) -> None:
             if a.attr in ("path",):
                 continue  # read only on a value already tested to be a GraphQLError
             reads.append(a)
+    for c in walk_body(le):
+        if isinstance(c, ast.Call) and call_name(c) == "getattr" and len(c.args) >= 2 and unparse(c.args[0]) == "original_error" \
+                and isinstance(c.args[1], ast.Constant):
+            fake = ast.Attribute(value=c.args[0], attr=str(c.args[1].value), ctx=ast.Load())
+            ast.copy_location(fake, c)
+            fake.parent = getattr(c, "parent", None)  # type: ignore[attr-defined]
+            c._as_attr = fake  # type: ignore[attr-defined]
+            reads.append(c)
     ret = [r for r in walk_body(le) if isinstance(r, ast.Return) and isinstance(r.value, ast.Call) and call_name(r.value) == "GraphQLError"]
     if not ret:
         raise AnalysisError("located_error: GraphQLError(...) return not found")
     final = ret[-1]
     for a in reads:
+        attr_name = a.attr if isinstance(a, ast.Attribute) else str(a.args[1].value)
         # the local the read is stored in
         st = parent(a)
         while st is not None and not isinstance(st, ast.stmt):
@@ -262,9 +271,9 @@ def untrusted_attr(check: Check, repo: Repo) -> None:
                         and n.args and unparse(n.args[0]) == tgt:
                     guarded = True
         ok = converted or guarded
-        check.ob(rule, a, f"located_error reads original_error.{a.attr}", ok,
+        check.ob(rule, a, f"located_error reads original_error.{attr_name}", ok,
                  "converted with str() / type-tested before use" if ok else
-                 f"`{tgt or unparse(a)}` is passed to GraphQLError(...) without any type test: an exception whose `{a.attr}` "
+                 f"`{tgt or unparse(a)}` is passed to GraphQLError(...) without any type test: an exception whose `{attr_name}` "
                  f"attribute has an unexpected type makes located_error itself raise")
     gi = repo.func("error.graphql_error", "GraphQLError.__init__")
     for c in walk_body(gi):
